@@ -4,6 +4,8 @@ package vlib
 
 import (
 	"bufio"
+	"hash/fnv"
+	"os/exec"
 	"encoding/json"
 	"fmt"
 	"os"
@@ -29,7 +31,7 @@ type Run struct {
 	evaluations int64
 	states      int64
 	transitions int64
-	distinct    map[string]struct{}
+	distinct    map[uint64]struct{}
 	outcomes    map[string]int64
 	samples     []any
 	extra       map[string]any
@@ -69,7 +71,7 @@ func NewRun(id, level string) *Run {
 	r := &Run{
 		ID: id, Tier: TierFromArgs(), Seed: seed, Level: level,
 		start:      time.Now(),
-		distinct:   map[string]struct{}{},
+		distinct:   map[uint64]struct{}{},
 		outcomes:   map[string]int64{},
 		extra:      map[string]any{},
 		violations: map[string]*violation{},
@@ -129,8 +131,10 @@ func (r *Run) AddTransitions(n int) { r.mu.Lock(); r.transitions += int64(n); r.
 // Distinct records a case that is non-trivial by the stated rule; duplicates
 // (same key) are counted once.
 func (r *Run) Distinct(key string) {
+	h := fnv.New64a()
+	h.Write([]byte(key))
 	r.mu.Lock()
-	r.distinct[key] = struct{}{}
+	r.distinct[h.Sum64()] = struct{}{}
 	r.mu.Unlock()
 }
 
@@ -207,9 +211,152 @@ func (r *Run) NumViolations() int {
 	return len(r.violations)
 }
 
+// ---- process sharding ----
+
+type partial struct {
+	Evaluations int64             `json:"evaluations"`
+	States      int64             `json:"states"`
+	Transitions int64             `json:"transitions"`
+	Distinct    []uint64          `json:"distinct"`
+	Outcomes    map[string]int64  `json:"outcomes"`
+	Samples     []any             `json:"samples"`
+	Extra       map[string]any    `json:"extra"`
+	Exhaustive  bool              `json:"exhaustive"`
+	CapNotes    []string          `json:"cap_notes"`
+	Violations  []*violation      `json:"violations"`
+	KnownHit    map[string]int    `json:"known_hit"`
+}
+
+// ShardIndex returns (i, n) when this process is a shard child, else (0, 1).
+func ShardIndex() (int, int) {
+	var i, n int
+	if _, err := fmt.Sscanf(os.Getenv("VERIF_SHARD"), "%d/%d", &i, &n); err != nil || n < 1 {
+		return 0, 1
+	}
+	return i, n
+}
+
+func IsShardChild() bool { return os.Getenv("VERIF_SHARD_OUT") != "" }
+
+// Fork re-executes the harness n times (VERIF_SHARD=i/n), waits, and merges the
+// children's partial results into r. It returns true in the parent (which must
+// then skip the work and call Finish) and false in a child. A child that dies
+// without writing its partial is a hard harness error (exit 2), never a verdict.
+func (r *Run) Fork(n int) bool {
+	if IsShardChild() {
+		return false
+	}
+	dir, err := os.MkdirTemp("", "verif-shards-")
+	if err != nil {
+		panic(err)
+	}
+	defer os.RemoveAll(dir)
+	type res struct {
+		i   int
+		err error
+		out []byte
+	}
+	ch := make(chan res, n)
+	for i := 0; i < n; i++ {
+		go func(i int) {
+			cmd := exec.Command(os.Args[0], os.Args[1:]...)
+			cmd.Env = append(os.Environ(), fmt.Sprintf("VERIF_SHARD=%d/%d", i, n), "VERIF_SHARD_OUT="+filepath.Join(dir, fmt.Sprintf("p%d.json", i)), "GOMAXPROCS=2")
+			out, err := cmd.CombinedOutput()
+			ch <- res{i, err, out}
+		}(i)
+	}
+	for k := 0; k < n; k++ {
+		x := <-ch
+		blob, rerr := os.ReadFile(filepath.Join(dir, fmt.Sprintf("p%d.json", x.i)))
+		if rerr != nil {
+			tail := x.out
+			if len(tail) > 4000 {
+				tail = tail[len(tail)-4000:]
+			}
+			fmt.Printf("HARNESS-ERROR: shard %d/%d died without a result (%v)\n%s\n", x.i, n, x.err, tail)
+			os.Exit(2)
+		}
+		var p partial
+		if err := json.Unmarshal(blob, &p); err != nil {
+			fmt.Println("HARNESS-ERROR: bad shard partial:", err)
+			os.Exit(2)
+		}
+		r.merge(&p)
+	}
+	return true
+}
+
+func (r *Run) merge(p *partial) {
+	r.mu.Lock()
+	defer r.mu.Unlock()
+	r.evaluations += p.Evaluations
+	r.states += p.States
+	r.transitions += p.Transitions
+	for _, d := range p.Distinct {
+		r.distinct[d] = struct{}{}
+	}
+	for k, v := range p.Outcomes {
+		r.outcomes[k] += v
+	}
+	for _, s := range p.Samples {
+		if len(r.samples) < r.maxSamples {
+			r.samples = append(r.samples, s)
+		}
+	}
+	for k, v := range p.Extra {
+		if f, ok := v.(float64); ok {
+			if cur, ok2 := r.extra[k].(float64); ok2 {
+				r.extra[k] = cur + f
+				continue
+			}
+		}
+		r.extra[k] = v
+	}
+	if !p.Exhaustive {
+		r.exhaustive = false
+	}
+	r.capNotes = append(r.capNotes, p.CapNotes...)
+	for _, v := range p.Violations {
+		if cur, ok := r.violations[v.Key]; ok {
+			cur.Count += v.Count
+		} else {
+			r.violations[v.Key] = v
+		}
+	}
+	for k, v := range p.KnownHit {
+		r.knownHit[k] += v
+	}
+}
+
+func (r *Run) writePartial(path string) {
+	r.mu.Lock()
+	p := partial{Evaluations: r.evaluations, States: r.states, Transitions: r.transitions, Outcomes: r.outcomes,
+		Samples: r.samples, Extra: r.extra, Exhaustive: r.exhaustive, CapNotes: r.capNotes, KnownHit: r.knownHit}
+	for d := range r.distinct {
+		p.Distinct = append(p.Distinct, d)
+	}
+	for _, v := range r.violations {
+		p.Violations = append(p.Violations, v)
+	}
+	r.mu.Unlock()
+	blob, err := json.Marshal(p)
+	if err != nil {
+		fmt.Println("HARNESS-ERROR: partial marshal:", err)
+		os.Exit(2)
+	}
+	if err := os.WriteFile(path, blob, 0o644); err != nil {
+		fmt.Println("HARNESS-ERROR:", err)
+		os.Exit(2)
+	}
+}
+
 // Finish writes the evidence file, prints KNOWN-FINDING / VIOLATION lines and
 // exits 0 or 1.
 func (r *Run) Finish() {
+	if out := os.Getenv("VERIF_SHARD_OUT"); out != "" {
+		r.writePartial(out)
+		os.Exit(0)
+	}
 	r.mu.Lock()
 	cov := map[string]any{}
 	for k, v := range r.extra {
